@@ -98,6 +98,14 @@ func (f *Frame) doCall(st *State, site ssa.CallInstruction, common *ssa.CallComm
 			}
 		}
 		f.panicSite(st, site.(ssa.Instruction), "nil", Eq(recv.Tag, IntLitI(0)), "method call on nil interface")
+		if why, ok := c.W.externFrames[name]; ok {
+			c.W.noteAssumed("extern " + name + " leaves the verified heap unchanged, result unconstrained: " + why)
+			c.allocFrame(st)
+			if rt := resultType(common); rt != nil {
+				return c.freshVal("ext."+common.Method.Name(), rt)
+			}
+			return nil
+		}
 		return f.unknownCall(st, common, name)
 	}
 	if fnv != nil && fnv.K == KFunc && fnv.Fn != nil {
